@@ -21,7 +21,7 @@ RULE = (
     "options dict plain / with nested storage_options / absent), cli-create(adjacent | user dir, "
     "rpc), open with create_cache=True while the user cache dir cannot be created (allowed to fail with OSError, not to write elsewhere), open of the same product on memory:// or vtrace:// (uncached, or with index files shipped next to its images; with / without storage_options), delete local cache, delete adjacent cache, tear (truncate) the index files of one location, reload an earlier returned tree}. Quick: a "
     "Hypothesis RuleBasedStateMachine (120 machines x <= 12 steps) plus all histories of length "
-    "<= 2 over a 16-operation alphabet and all 96 'produce a cache, disturb it, open' triples, plus 12 short histories in which a step (an open with / without cache use or creation) is carried out by another process whose preferred text encoding is not UTF-8 (C locale) - caches written there are used here and the other way round, plus all pairs (one spelling of the local product path writes the cache, another reads it) over 9 spellings (plain, trailing slash(es), file:// and local:// URLs, relative paths, pathlib.Path); thorough: breadth-first enumeration of ALL histories up "
+    "<= 2 over a 16-operation alphabet and all 96 'produce a cache, disturb it, open' triples, plus 18 short histories in which a step (an open with / without cache use or creation) is carried out by another process whose preferred text encoding is not UTF-8 (C locale; some with another string hash seed) - caches written there are used here and the other way round, plus all pairs (one spelling of the local product path writes the cache, another reads it) over 9 spellings (plain, trailing slash(es), file:// and local:// URLs, relative paths, pathlib.Path); thorough: breadth-first enumeration of ALL histories up "
     "to length 4 over that alphabet (69904 per product) for a level-1.1 ScanSAR-like product (image files differ only in the scan suffix) and a level-1.5 product. "
     "Invariants after every step: the returned tree equals the uncached reference for this "
     "step's rpc; the product directory (listing + sha256) is unchanged except index files made "
@@ -257,7 +257,7 @@ class World:
             # written there are read here afterwards and the other way round.
             use_cache = op.get("use_cache", True)
             create = op.get("create_cache", False)
-            flat, err = elsewhere_open(self.url, {"use_cache": use_cache, "create_cache": create})
+            flat, err = elsewhere_open(self.url, {"use_cache": use_cache, "create_cache": create}, op.get("hashseed"))
             if create:
                 for image in self.images:
                     intact_local = image in self.local and image not in self.torn_local
@@ -410,7 +410,7 @@ with open(out, "wb") as f:
 """
 
 
-def elsewhere_open(url, opts):
+def elsewhere_open(url, opts, hashseed=None):
     import os
     import pickle
     import subprocess
@@ -419,6 +419,9 @@ def elsewhere_open(url, opts):
 
     env = dict(os.environ, LC_ALL="C", LANG="C", PYTHONUTF8="0", PYTHONCOERCECLOCALE="0")
     env.pop("PYTHONIOENCODING", None)
+    if hashseed is not None:
+        # another string hash seed: iteration orders of sets differ from this process's
+        env["PYTHONHASHSEED"] = str(hashseed)
     fd, name = tempfile.mkstemp(prefix="vfelsewhere-", dir=harness.scratch_root())
     os.close(fd)
     try:
@@ -444,6 +447,9 @@ def elsewhere_cases():
         [{"op": "cli", "target": "adjacent"}, there(use_cache=True)],
         [{"op": "cli", "target": "user"}, {"op": "tear", "where": "user"}, there(use_cache=True, create_cache=True), here(use_cache=True)],
         [there(use_cache=True)],
+        [there(use_cache=False, hashseed=1)],
+        [there(use_cache=False, create_cache=True, hashseed=4242), here(use_cache=True)],
+        [here(use_cache=False, create_cache=True), there(use_cache=True, hashseed=31337)],
     ]
     for level in LEVELS:
         for ops in histories:
